@@ -73,6 +73,17 @@ func accessPath(v ssa.Value, depth int) string {
 		return accessPath(x.Tuple, depth+1) + fmt.Sprintf("#%d", x.Index)
 	case *ssa.Lookup:
 		return accessPath(x.X, depth+1) + "[" + accessPath(x.Index, depth+1) + "]"
+	case *ssa.IndexAddr:
+		return accessPath(x.X, depth+1) + "[" + accessPath(x.Index, depth+1) + "]"
+	case *ssa.Index:
+		return accessPath(x.X, depth+1) + "[" + accessPath(x.Index, depth+1) + "]"
+	case *ssa.BinOp:
+		return "(" + accessPath(x.X, depth+1) + x.Op.String() + accessPath(x.Y, depth+1) + ")"
+	}
+	if c, ok := v.(*ssa.Call); ok {
+		if b, isB := c.Common().Value.(*ssa.Builtin); isB && (b.Name() == "len" || b.Name() == "cap") && len(c.Common().Args) == 1 {
+			return b.Name() + "(" + accessPath(c.Common().Args[0], depth+1) + ")"
+		}
 	}
 	return uniqueName(v)
 }
